@@ -19,6 +19,7 @@ import (
 	"log"
 	"os"
 	"runtime"
+	"strings"
 	"sync"
 
 	"verif.local/harness/ev"
@@ -28,36 +29,54 @@ func main() {
 	ev.Main("C11", "fault_enumeration",
 		"(1) every byte string and blob name stored in the two wrapped stores is scanned after every receive and at the end for any 12-byte window of any plaintext and for each plaintext ref as text/hex/HEX/raw digest/base64; "+
 			"(2) tamper cases = for every stored ciphertext and meta blob: one flip per byte position (all positions for blobs <= 1 KiB, else version byte, age header, MAC line, nonce, every STREAM chunk boundary, last bytes plus seeded positions), truncations to each length class, extensions by 1 and 16 bytes, and all ordered blob-for-blob swaps data<-data, data<-meta, meta<-meta, meta<-data (including a user blob whose content is meta-shaped); after a data mutant every plaintext is fetched and stat'ed through the live store, after a meta mutant the store is re-created with an empty index first; oracle: exact original bytes and size, or an error; "+
-			"(3) histories of 120-450 small receives with restarts (old incarnation frozen, new store over the same lower stores, empty index) at seeded points and at five crash points inside a compaction; after each restart every acknowledged blob must be stat-able with its size, enumerated once in ascending order and fetched intact. "+
+			"(3) histories of 120-450 small receives with restarts (old incarnation frozen, new store over the same lower stores, empty index) at seeded points and at five crash points inside a compaction; after each restart every acknowledged blob must be stat-able with its size, enumerated once in ascending order and fetched intact; "+
+			"(4) directed histories around one compaction, same oracle: the index row of the receive that triggers the compaction is written only after the compaction looked it up (slow index); one transient failure of an index lookup made by a compaction goroutine (launched by a receive / by the start-up scan); a restart that keeps the index (fully, or minus a seeded third of its rows) followed by a compaction and then the loss of the index; wrapped stores that do not re-hash what they are given (localdisk) with writes that fail once after the body was consumed and a client that retries refused receives; thorough: one history of > 10,250 receives that makes a packed meta blob full (> 10,000 lines) with restarts before and after; "+
+			"(5) everything HANDED to the wrapped stores (names and bodies of writes before any fault decides their fate, names given to Fetch/StatBlobs/RemoveBlobs, enumeration cursors) is scanned like (1). "+
 			"distinct = tamper case id (store, class, target blob, position/length/source) whose served bytes differ from the stored ones, or history (length, crash kind, restart sequence)",
 		run)
 }
 
 func run(r *ev.Run) {
 	log.SetOutput(io.Discard)
-	r.Assume("the wrapped stores are real memory.Storage instances; tampered bytes are served by a harness layer above them because memory.Storage verifies hashes on receive")
+	r.Assume("the wrapped stores are real memory.Storage instances; tampered bytes are served by a harness layer above them because memory.Storage verifies hashes on receive; the loose-store histories use real localdisk stores (which, like most perkeep stores, do not re-hash received bytes) instead")
+	r.Assume("compaction goroutines are told from foreground calls by makePackedMetaBlob being the entry function of the calling goroutine (directed histories only; used to place one fault / one delay and to wait for the goroutine's end, never for a verdict)")
 	r.Assume("plaintext blobs shorter than 12 bytes are scanned for by their refs only; a 12-byte window of any plaintext occurring by chance in ciphertext has probability < 2^-50 per run")
 	r.Assume("the local meta index (sorted.KeyValue) is not a wrapped store: it legitimately holds plaintext refs and is not scanned; it is discarded at every restart")
 	r.Assume("waiting for compaction goroutines uses observed events (meta-store writes, index lookups) and the documented trigger count; a timeout is inconclusive, never a verdict")
 	root := ev.Scratch("c11")
 	defer os.RemoveAll(root)
 
+	// C11_FAMILIES (development only) restricts the run to some job families; the run is then
+	// inconclusive because the required categories of the others are missing.
+	fam := func(name string) bool {
+		f := os.Getenv("C11_FAMILIES")
+		return f == "" || strings.Contains(","+f+",", ","+name+",")
+	}
 	var jobs []func()
-	for i := 0; i < r.Pick(1, 10); i++ {
+	// the longest job first
+	for i := 0; fam("long") && i < r.Pick(0, 1); i++ {
+		i := i
+		jobs = append(jobs, func() { runLong(r, root, i) })
+	}
+	for i := 0; fam("tamperL") && i < r.Pick(1, 10); i++ {
 		i := i
 		jobs = append(jobs, func() { tamperA(r, root, i, true) })
 	}
-	for i := 0; i < r.Pick(2, 24); i++ {
+	for i := 0; fam("tamperA") && i < r.Pick(2, 24); i++ {
 		i := i
 		jobs = append(jobs, func() { tamperA(r, root, i, false) })
 	}
-	for i := 0; i < r.Pick(1, 6); i++ {
+	for i := 0; fam("tamperB") && i < r.Pick(1, 6); i++ {
 		i := i
 		jobs = append(jobs, func() { tamperB(r, root, i) })
 	}
-	for i := 0; i < r.Pick(7, 77); i++ {
+	for i := 0; fam("hist") && i < r.Pick(7, 77); i++ {
 		i := i
 		jobs = append(jobs, func() { runHistory(r, root, i) })
+	}
+	for i := 0; fam("directed") && i < r.Pick(2*len(directedKinds), 8*len(directedKinds)); i++ {
+		i := i
+		jobs = append(jobs, func() { runDirected(r, root, i) })
 	}
 	workers := runtime.NumCPU() - 2
 	if workers > 14 {
@@ -113,5 +132,26 @@ func run(r *ev.Run) {
 		"inside-compaction/before-packed-upload",
 		"after-failed-packed-upload",
 		"final/after-compaction",
-		"final/after-startup-compaction")
+		"final/after-startup-compaction",
+		// directed histories
+		"after-compaction-raced-by-slow-index-set",
+		"after-compaction-with-failed-index-lookup",
+		"after-startup-compaction-with-failed-index-lookup",
+		"index-kept/before-any-compaction", "index-kept/after-compaction",
+		"index-partly-kept/before-any-compaction", "index-partly-kept/after-compaction",
+		"after-compaction-following-index-kept-restart",
+		"after-compaction-following-index-partly-kept-restart",
+		"final/after-transient-write-failures/store-without-hash-check")
+	r.Require("history_events",
+		"compaction-looked-up-the-triggering-receive-before-its-index-row-was-written",
+		"transient-index-lookup-failure-inside-compaction",
+		"transient-index-lookup-failure-inside-startup-compaction",
+		"transient-meta-write-failure-after-body-read(store-without-hash-check)/receive-failed-then-retried")
+	r.Require("leak_monitor",
+		"handed/blobs/ReceiveBlob/name", "handed/blobs/ReceiveBlob/body", "handed/blobs/Fetch/name",
+		"handed/meta/ReceiveBlob/name", "handed/meta/ReceiveBlob/body", "handed/meta/Fetch/name", "handed/meta/RemoveBlobs/name", "handed/meta/EnumerateBlobs/cursor")
+	if r.Thorough() {
+		r.Require("restarts", "long/before-a-meta-blob-is-full", "long/after-a-meta-blob-became-full", "long/final")
+		r.Require("structures", "packed-meta/full(>10000 lines)")
+	}
 }
